@@ -6,7 +6,7 @@ CONSTANTS
   WideStale = FALSE
   TwoDev = FALSE
   ExportOn = TRUE
-  SampleMod = 3
+  SampleMod = 4
   HH = 10
 INIT Init
 NEXT Next
